@@ -81,9 +81,9 @@ func runC17(c *kit.Ctx) {
 			sel = s
 		}
 	})
-	factsOf := func(b *ssa.BasicBlock) bfacts {
+	factsOf := func(fs []kit.Fact) bfacts {
 		var r bfacts
-		for _, f := range kit.FactsAt(b) {
+		for _, f := range fs {
 			cmp, ok := kit.CanonCmp(f.Cond, f.Pol)
 			if !ok {
 				r.other = append(r.other, f.Cond.String())
@@ -146,37 +146,49 @@ func runC17(c *kit.Ctx) {
 		if !ok {
 			return
 		}
-		f := factsOf(r.Block())
-		v := kit.Res(r, 0)
-		errNil := kit.IsNilConst(kit.Res(r, 1))
-		switch {
-		case f.override:
-			c.OK(sl, "return", r.Pos(), "test override branch (tabled: nil in production)")
-		case isTrue(f.zero):
-			k, okk := durConst(v)
-			c.Check(okk && k == 16*ms && errNil, sl, "return", r.Pos(), "backoff == 0: returns 16ms without waiting", "backoff == 0 edge does not return (16ms, nil)")
-		case f.doneCase:
-			call, isCall := kit.Res(r, 1).(*ssa.Call)
-			c.Check(isCall && kit.CalleeName(call) == ctxErr && call.Call.Value == ssa.Value(ctxP), sl, "return", r.Pos(),
-				"cancelled: returns ctx.Err()", "the Done() case does not return the context's error")
-		case f.waited && isTrue(f.lt5):
-			bo, isBo := v.(*ssa.BinOp)
-			k := int64(0)
-			if isBo {
-				k, _ = durConst(bo.Y)
+		// one verdict per value that can be returned here, with the conditions under which it is
+		// (the returned duration may be merged from several places, e.g. a helper's returns)
+		for _, lf := range valueLeaves(kit.Res(r, 0), r.Block()) {
+			f := factsOf(lf.facts)
+			v := lf.val
+			errNil := kit.IsNilConst(kit.ResolveLeaf(kit.Res(r, 1), lf.path))
+			// x*k or k*x, x+k or k+x
+			binop := func(op token.Token) (int64, bool) {
+				bo, isBo := v.(*ssa.BinOp)
+				if !isBo || bo.Op != op {
+					return 0, false
+				}
+				if bo.X == ssa.Value(boP) {
+					k, ok := durConst(bo.Y)
+					return k, ok
+				}
+				if bo.Y == ssa.Value(boP) {
+					k, ok := durConst(bo.X)
+					return k, ok
+				}
+				return 0, false
 			}
-			c.Check(isBo && bo.Op == token.MUL && bo.X == ssa.Value(boP) && k == 2 && errNil, sl, "return", r.Pos(), "backoff < 5s: returns backoff*2", "backoff < 5s edge does not return backoff*2")
-		case f.waited && isFalse(f.lt5) && isTrue(f.lt30):
-			bo, isBo := v.(*ssa.BinOp)
-			k := int64(0)
-			if isBo {
-				k, _ = durConst(bo.Y)
+			switch {
+			case f.override:
+				c.OK(sl, "return", r.Pos(), "test override branch (tabled: nil in production)")
+			case isTrue(f.zero):
+				k, okk := durConst(v)
+				c.Check(okk && k == 16*ms && errNil, sl, "return", r.Pos(), "backoff == 0: returns 16ms without waiting", "backoff == 0 edge does not return (16ms, nil)")
+			case f.doneCase:
+				call, isCall := kit.ResolveLeaf(kit.Res(r, 1), lf.path).(*ssa.Call)
+				c.Check(isCall && kit.CalleeName(call) == ctxErr && call.Call.Value == ssa.Value(ctxP), sl, "return", r.Pos(),
+					"cancelled: returns ctx.Err()", "the Done() case does not return the context's error")
+			case f.waited && isTrue(f.lt5):
+				k, isBo := binop(token.MUL)
+				c.Check(isBo && k == 2 && errNil, sl, "return", r.Pos(), "backoff < 5s: returns backoff*2", "backoff < 5s edge does not return backoff*2")
+			case f.waited && isFalse(f.lt5) && isTrue(f.lt30):
+				k, isBo := binop(token.ADD)
+				c.Check(isBo && k == 5*sec && errNil, sl, "return", r.Pos(), "5s <= backoff < 30s: returns backoff+5s", "5s<=backoff<30s edge does not return backoff+5s")
+			case f.waited && isFalse(f.lt5) && isFalse(f.lt30):
+				c.Check(v == ssa.Value(boP) && errNil, sl, "return", r.Pos(), "backoff >= 30s: returns backoff unchanged", "backoff >= 30s edge does not return backoff unchanged")
+			default:
+				c.Unk(sl, "return", r.Pos(), "return under conditions that match no case of the stated schedule: "+strings.Join(f.other, "; "))
 			}
-			c.Check(isBo && bo.Op == token.ADD && bo.X == ssa.Value(boP) && k == 5*sec && errNil, sl, "return", r.Pos(), "5s <= backoff < 30s: returns backoff+5s", "5s<=backoff<30s edge does not return backoff+5s")
-		case f.waited && isFalse(f.lt5) && isFalse(f.lt30):
-			c.Check(v == ssa.Value(boP) && errNil, sl, "return", r.Pos(), "backoff >= 30s: returns backoff unchanged", "backoff >= 30s edge does not return backoff unchanged")
-		default:
-			c.Unk(sl, "return", r.Pos(), "return under conditions that match no case of the stated schedule: "+strings.Join(f.other, "; "))
 		}
 	})
 
@@ -633,6 +645,7 @@ func retryLoopsWait(c *kit.Ctx) {
 							if inc := counterIncrement(cmp.X); inc != nil && waitBlocks[from.Succs[0]] {
 								// every way from this edge back to the test passes the increment
 								e := kit.PathFromBlock(to, kit.PathQuery{
+									Known:  kit.EdgeFacts(from, to),
 									Target: func(in ssa.Instruction) bool { return in == ssa.Instruction(iff) },
 									Stop:   func(in ssa.Instruction) bool { return in == inc },
 								})
